@@ -153,7 +153,7 @@ class DateRenderer(ColumnRenderer):
         self.maxwidth = 10
 
     def format(self, value):
-        return value.strftime('%Y-%m-%d')
+        return value.isoformat()
 
 
 class IntRenderer(ObjectRenderer):
